@@ -12,7 +12,7 @@ CONSTANTS
   AltTag = {}
   OddLists = FALSE
   WellTyped = TRUE
-  NoopRolls = TRUE
+  NoopRolls = FALSE
 SPECIFICATION Spec
 VIEW MCView
 ACTION_CONSTRAINT CoverT
